@@ -786,6 +786,47 @@ impl Prio3Visitor for ProtoProbe<'_> {
                 let _ = misuse(ctx, &format!("Prio3<{k}>::verifier_shares_to_message"), "n+1-shares", wit.clone(), catch(|| vdaf.verifier_shares_to_message(b"c16", &(), more)));
             }
         }
+        // (7) verifier shares of the wrong LENGTH: produced by an instance of the same type that differs only
+        //     in the number of proofs (verifier_len * proofs differs), handed to THIS instance's combiner,
+        //     all of them or a single one among correct shares. verifier_shares_to_message is the only
+        //     operation that ever receives them, so it is the one that has to return the error.
+        for proofs2 in [cfg.proofs + 1, cfg.proofs.saturating_sub(1), cfg.proofs.saturating_mul(2)] {
+            if proofs2 == 0 || proofs2 == cfg.proofs {
+                continue;
+            }
+            let Ok(Ok(other)) = catch(|| Prio3::<T, P, 32>::new(cfg.aggs, proofs2, cfg.alg_id, typ.clone())) else { continue };
+            let tape2 = rng.bytes(random_size(p, &VdafCfg { proofs: proofs2, ..cfg.clone() }));
+            let Ok(Ok((ps2, sh2))) = catch(|| other.shard_with_random(b"c16", &T::meas(p, &m), &nonce, &tape2)) else { continue };
+            let mut foreign = vec![];
+            for (i, s) in sh2.iter().enumerate() {
+                if let Ok(Ok((_, v))) = catch(|| other.verify_init(&key, b"c16", i, &(), &nonce, &ps2, s)) {
+                    foreign.push(v);
+                }
+            }
+            let mut own = vec![];
+            for (i, s) in shares.iter().enumerate() {
+                if let Ok(Ok((_, v))) = catch(|| vdaf.verify_init(&key, b"c16", i, &(), &nonce, &ps, s)) {
+                    own.push(v);
+                }
+            }
+            if foreign.len() != n || own.len() != n {
+                continue;
+            }
+            let mut cases: Vec<(String, Vec<_>)> = vec![(format!("all-shares-from-{}-proof-instance", if proofs2 > cfg.proofs { "more" } else { "fewer" }), foreign.clone())];
+            for pos in [0, n - 1] {
+                let mut mixed = own.clone();
+                mixed[pos] = foreign[pos].clone();
+                cases.push((format!("one-share-from-{}-proof-instance", if proofs2 > cfg.proofs { "more" } else { "fewer" }), mixed));
+            }
+            for (name, vss) in cases {
+                ctx.count("wrong_length_verifier_shares_offered");
+                if misuse(ctx, &format!("Prio3<{k}>::verifier_shares_to_message"), &name, wit.clone(), catch(|| vdaf.verifier_shares_to_message(b"c16", &(), vss))).is_some() {
+                    ctx.violation(format!("Prio3<{k}>::verifier_shares_to_message|{name}|accepted"),
+                        "verifier shares of the wrong length (computed for another number of proofs) were combined without an error",
+                        json!({"config": desc, "other_num_proofs": proofs2}));
+                }
+            }
+        }
         // (6) aggregate / unshard with shares of another length
         {
             let short = prio::vdaf::OutputShare::<T::Field>::from(vec![<T::Field as prio::field::FieldElement>::zero(); p.output_len() + 1]);
